@@ -291,7 +291,12 @@ def n1_closure_patterns(src, log):
             pat, _, ty = p.partition(":") if ":" in p and not p.startswith("(") else (p, "", "")
             nm = f"__vx_a{counter}"
             names.append(nm + (": " + ty.strip() if ty.strip() else ""))
-            lets.append(f"let {pat.strip()} = {nm};")
+            pt = pat.strip()
+            if pt.startswith("&") and pt[1:].strip().replace("_", "a").isalnum():
+                # reference pattern on a Copy value: explicit dereference (Verus has no ref patterns)
+                lets.append(f"let {pt[1:].strip()} = *{nm};")
+            else:
+                lets.append(f"let {pt} = {nm};")
         body = src[toks[s].start:toks[e].end]
         rep = "|" + ", ".join(names) + "| { " + " ".join(lets) + " " + body + " }"
         src = src[:toks[b0].start] + rep + src[toks[e].end:]
@@ -607,6 +612,31 @@ def n11_ref_patterns(src, log):
         log.append(f"N11 pattern Some(&{name}) -> Some(__vx_ref{k}) + explicit deref")
 
 
+def n12_is_none_or(src, log):
+    """E.is_none_or(|x| B)  ->  (match E { None => true, Some(x) => { B } })   (definition of Option::is_none_or)"""
+    while True:
+        toks = lex(src)
+        hit = None
+        for i, t in enumerate(toks):
+            if t.text == "." and i + 2 < len(toks) and toks[i + 1].text == "is_none_or" and toks[i + 2].text == "(":
+                hit = i
+                break
+        if hit is None:
+            return src
+        o = hit + 2
+        c = toks[o].mate
+        # closure: | ident | body
+        if not (toks[o + 1].text == "|" and toks[o + 2].kind == "ident" and toks[o + 3].text == "|"):
+            raise Unsupported("is_none_or with a non-trivial closure parameter")
+        x = toks[o + 2].text
+        body = src[toks[o + 4].start:toks[c].start].strip()
+        s0 = _chain_start(toks, hit)
+        recv = src[toks[s0].start:toks[hit].start]
+        rep = f"(match {recv} {{ None => true, Some({x}) => {{ {body} }} }})"
+        src = src[:toks[s0].start] + rep + src[toks[c].end:]
+        log.append(f"N12 E.is_none_or(|{x}| ..) -> match E {{ None => true, Some({x}) => .. }}")
+
+
 def nvis(src, log):
     """pub(crate) / pub(super) / pub(in ..)  ->  pub   (a single-file unit has one crate and one module;
     widening visibility cannot change behaviour)"""
@@ -630,6 +660,8 @@ def normalise(src, rules, log):
     for r in rules:
         if r == "n5":
             src = n5_derives(src, log)
+        elif r == "n12":
+            src = n12_is_none_or(src, log)
         elif r == "n11":
             src = n11_ref_patterns(src, log)
         elif r == "n9":
